@@ -467,16 +467,23 @@ def probe(target, cid):
 @functools.lru_cache(maxsize=None)
 def probe_reps(target, cid):
     """{path: sorted tuple of representatives}: the accepted candidates grouped by the encoding
-    they produce (other operands fixed), one value per group -- the one of smallest magnitude,
-    the non-negative one on a tie.  Two candidates in one group are aliases of each other (a
-    C10 matter); the representatives of an n-bit field are its signed range."""
+    they produce (other operands fixed); per group the value of smallest magnitude and the
+    smallest non-negative one.  Two candidates in one group are aliases of each other (a C10
+    matter); the representatives of an n-bit field are its signed and its unsigned range."""
     out = {}
     for p, acc in _probe_full(target, cid).items():
         groups = {}
         for v, e in acc.items():
             groups.setdefault(e, []).append(v)
-        reps = [min(g, key=lambda v: (abs(v), v < 0)) for g in groups.values()]
-        out[p] = tuple(sorted(reps))
+        reps = []
+        for g in groups.values():
+            reps.append(min(g, key=lambda v: (abs(v), v < 0)))
+            nonneg = [v for v in g if v >= 0]
+            if nonneg:  # the unsigned reading of the same field
+                reps.append(min(nonneg))
+        reps = sorted(set(reps))
+        cap = 1 << (64 if target == "x86_64" else 32)
+        out[p] = tuple(sorted(v for v in reps if abs(v) <= cap))
     return out
 
 
@@ -497,11 +504,13 @@ def int_pool(accepted):
 # Hypothesis strategies
 
 
-def args_strategy(target, cid, cls=None, path_prefix=(), exclude_ctors=frozenset(), canonical=False, reg_filter=None):
+def args_strategy(target, cid, cls=None, path_prefix=(), exclude_ctors=frozenset(), canonical=False, reg_filter=None, int_filter=None):
     """Strategy for the argument descriptions of one class (recursive for constructors).
     `exclude_ctors`: names of constructor alternatives that must not be drawn.
     `canonical`: draw int operands only from the alias-free representatives (probe_reps) and the
-    interval they span.  `reg_filter(register class, ids) -> ids` restricts register operands."""
+    interval they span.  `reg_filter(path, register class, ids) -> ids` restricts register operands,
+    `int_filter(path) -> predicate or None` restricts the values of one int operand (the predicate
+    must hold for most values)."""
     from hypothesis import strategies as st
 
     top = class_by_id(target, cid)
@@ -513,11 +522,16 @@ def args_strategy(target, cid, cls=None, path_prefix=(), exclude_ctors=frozenset
         if k == "reg":
             names = list(reg_ids(fa._cls)[0])
             if reg_filter is not None:
-                names = list(reg_filter(fa._cls, names)) or names
+                names = list(reg_filter(path_prefix + (i,), fa._cls, names)) or names
             parts.append(st.sampled_from(names).map(lambda n: ["r", n]))
         elif k == "int":
             acc = pr.get(path_prefix + (i,), ())
+            pred = int_filter(path_prefix + (i,)) if int_filter is not None else None
+            if pred is not None:
+                acc = tuple(v for v in acc if pred(v))
             pool = acc if canonical and acc else int_pool(acc)
+            if pred is not None:
+                pool = tuple(v for v in pool if pred(v)) or acc
             if acc:
                 lo, hi = acc[0], acc[-1]
                 s = st.one_of(st.sampled_from(acc), st.integers(lo, hi), st.sampled_from(pool))
@@ -526,6 +540,8 @@ def args_strategy(target, cid, cls=None, path_prefix=(), exclude_ctors=frozenset
                     s = st.one_of(s, st.integers(max(lo, -64), min(hi, 64)))
             else:
                 s = st.sampled_from(pool)
+            if pred is not None:
+                s = s.filter(pred)
             parts.append(s)
         elif k == "str":
             parts.append(st.sampled_from(LABELS))
@@ -535,7 +551,7 @@ def args_strategy(target, cid, cls=None, path_prefix=(), exclude_ctors=frozenset
                 if not sub.syntax or sub.__name__ in exclude_ctors:
                     continue
                 alts.append(
-                    args_strategy(target, cid, sub, path_prefix + (i, sub.__name__), exclude_ctors, canonical, reg_filter).map(
+                    args_strategy(target, cid, sub, path_prefix + (i, sub.__name__), exclude_ctors, canonical, reg_filter, int_filter).map(
                         lambda a, n=sub.__name__: ["c", n, a]
                     )
                 )
@@ -648,3 +664,62 @@ def describe(target, ins):
 def syntax_literals(cls):
     """The syntax with operands replaced by None and whitespace dropped."""
     return tuple(None if not isinstance(e, str) else e for e in cls.syntax.syntax if not (isinstance(e, str) and e.isspace()))
+
+
+# ---------------------------------------------------------------------------
+# printed form with the repairs of two known printing defects (C09-KF1: no separator after the
+# mnemonic; C09-KF3: ARM register sets without braces).  Used by C09 as the *model* of those
+# findings and by C08 to read operands out of an otherwise unreadable text.
+
+
+def glued(cls):
+    """An identifier-like literal immediately followed by an operand or another identifier."""
+    from ppci.arch.encoding import Operand
+
+    s = cls.syntax.syntax
+    for a, b in zip(s, s[1:]):
+        if isinstance(a, str) and a.isidentifier():
+            if isinstance(b, Operand) or (isinstance(b, str) and b.isidentifier()):
+                return True
+    return False
+
+
+def any_glued(obj):
+    from ppci.arch.encoding import Constructor
+
+    if glued(type(obj)):
+        return True
+    for fa in obj.syntax.formal_arguments:
+        v = getattr(obj, fa._name)
+        if isinstance(v, Constructor) and v.syntax and any_glued(v):
+            return True
+    return False
+
+
+def render(obj, unglue=False, braces=False):
+    """Syntax.render with the repairs of KF1 (separator after an identifier) / KF3 (braces)."""
+    from ppci.arch.encoding import Constructor, Operand
+
+    out = []
+    prev_ident = False
+    for e in obj.syntax.syntax:
+        if isinstance(e, Operand):
+            v = getattr(obj, e._name)
+            if isinstance(v, Constructor) and v.syntax:
+                t = render(v, unglue, braces)
+            else:
+                t = str(v)
+                if braces and isinstance(v, (set, frozenset)) and not t.lstrip().startswith("{"):
+                    t = "{" + t + "}"
+            if unglue and prev_ident:
+                out.append(" ")
+            out.append(t)
+            prev_ident = False
+        else:
+            if unglue and prev_ident and e.isidentifier():
+                out.append(" ")
+            out.append(e)
+            prev_ident = e.isidentifier()
+    return "".join(out)
+
+
